@@ -78,9 +78,9 @@ META = dict(
     level_text="complete over the finite domain (119 elements x 97 radii, 104 structure slots, 91 emission rows, 344 magnetic "
                "records / 98 charge states, 211 Cromer-Mann entries, and every isotope / ion / isotope-ion object of the table) "
                "in each explored configuration; Q on a fixed grid",
-    level_note="pinned copy of the five tables (mc/ref/pinned_tables.json) made with the independent readers in "
-               "mc/ref/tables.py and mc/ref/xray.py (regex / ast / tokenize; no eval, no shared code); nothing is read from the "
-               "source of the tree under test at run time",
+    level_note="independent readers in mc/ref/tables.py and mc/ref/xray.py (regex / ast / tokenize; no eval, no shared code) "
+               "read the five tables from the text of the tree under test; where that text is unreadable the pinned copy "
+               "mc/ref/pinned_tables.json made with the same readers from the unchanged tree is used",
 )
 
 QGRID = (0.0, 0.5, 4 * math.pi, 30.0)
